@@ -286,6 +286,6 @@ def case_strategy(max_dim=12, max_ops=15):
                 ops.append(["rowh", t, draw(st.integers(0, m.r - 1)), draw(size)])
             else:
                 ops.append(["colw", t, draw(st.integers(0, m.c - 1)), draw(size)])
-        return {"tables": specs, "ops": ops}
+        return {"tables": specs, "ops": ops, "hold": draw(st.sampled_from([True, True, False]))}
 
     return build()
